@@ -31,6 +31,10 @@ type c16Case struct {
 	Class string `json:"class"`
 	// jpeg2000
 	J *j2kCase `json:"j,omitempty"`
+	// region of interest: 1 = legacy ROIParams (all components), 2 = ROIConfig limited to the
+	// components of ROIComps, 3 = ROIConfig with two rectangles on all components
+	ROI      int   `json:"roi,omitempty"`
+	ROIComps []int `json:"roicomps,omitempty"`
 	// rle
 	BA     int `json:"ba,omitempty"`
 	Planar int `json:"planar,omitempty"`
@@ -43,7 +47,8 @@ func init() { register(c16{}) }
 func (c16) ID() string { return "C16" }
 func (c16) Rule() string {
 	return "the bytes returned by every encoder are walked by the independent strict marker walkers (T.81/T.87: internal/ref/jpegwalk.go; 15444-1: j2kwalk.go; Annex G: rle.go): start/end markers, every segment length consistent with its content and the next marker, referenced tables defined, no unescaped marker code in entropy-coded data (T.81: FF followed by 00/RSTn only; T.87: byte after FF has MSB 0; JPEG 2000: no FF followed by >8F inside tile-part bodies), Psot chain ends exactly at EOC, TPsot/TNsot consistent, TLM entries equal the (Isot,Psot) sequence, nothing after the end marker; header fields equal the encoder's arguments (width, height, components, precision, signedness, NEAR, ILV, predictor in Ss, transform/progression/layers/levels/code-block exponents in COD, Rsiz/CAP for HT); lossless Huffman scans are consumed exactly by the reference decoder with 1-bit padding. " +
-		"cases: all encoders x precision/components/selectors on noise (0xFF-rich), sizes needing both bytes of a 16-bit field (255,256,257,65535x1,1x65535), JPEG 2000 layers/progressions/precincts and tile grids up to 8x8. non-trivial: a stream was returned and walked; distinct = distinct descriptor"
+		"cases: all encoders x precision/components/selectors on noise (0xFF-rich), sizes needing both bytes of a 16-bit field (255,256,257,65535x1,1x65535), JPEG 2000 layers/progressions/precincts and tile grids up to 8x8. non-trivial: a stream was returned and walked; distinct = distinct descriptor" +
+		" (roi) RGN signalling: ROIParams / ROIConfig on all or a subset of the components x single-tile, tiled, layered and rate-targeted encodes; (htblocks) HT streams of 256x256 flatnoise images with 16x16 code-blocks (MagSgn streams of every length next to MEL streams that open with 1-bits) and of other sparse classes with 4x4..8x8 code-blocks"
 }
 func (c16) Assumptions() []string {
 	return []string{"the three walkers are correct readings of T.81 B / T.87 C / 15444-1 A and PS3.5 Annex G"}
@@ -177,6 +182,52 @@ func (c16) Build(tier string, seed uint64) []any {
 			_ = i
 			add(&c16Case{Gen: "frames", Enc: "codec" + ts, W: 8 + r.Intn(60), H: 8 + r.Intn(60), C: spp, P: bs, BA: ba, Sel: 3 + r.Intn(3), Class: "noise", CSeed: r.U64()})
 		}
+	}
+	// (roi) region-of-interest signalling (RGN segments in the main header or in every tile-part
+	// header) on single-tile, tiled, layered and rate-targeted encodes; regions on all or on a
+	// subset of the components
+	nROI := 60
+	if th {
+		nROI = 600
+	}
+	for i := 0; i < nROI; i++ {
+		r := gen.Sub(seed, "C16", "roi", i)
+		j := &j2kCase{Gen: "roi"}
+		randJ2KConfig(r, j)
+		j.W, j.H = 16+r.Intn(80), 16+r.Intn(80)
+		j.C = gen.Pick(r, 1, 3, 3, 3, 4)
+		j.PW, j.PH = 0, 0
+		if j.C != 3 {
+			j.MCT = false
+		}
+		if i%3 != 0 {
+			tx, ty := 1+r.Intn(4), 1+r.Intn(4)
+			j.TW, j.TH = (j.W+tx-1)/tx, (j.H+ty-1)/ty
+		}
+		if i%2 == 0 {
+			j.Layers = 2 + r.Intn(3)
+		}
+		if i%5 == 0 {
+			j.Ratio, j.Append = float64(2+r.Intn(8)), true
+		}
+		c := &c16Case{Gen: "roi", Enc: gen.Pick(r, "j2k", "j2k", "j2kirr"), J: j, Class: "noise", W: j.W, H: j.H, C: j.C, P: j.P}
+		if c.Enc == "j2kirr" {
+			j.Quality = 30 + r.Intn(70)
+			j.P = gen.Pick(r, 8, 12, 16)
+			c.P = j.P
+		}
+		c.ROI = 1 + r.Intn(3)
+		if c.ROI == 2 {
+			for k := 0; k < j.C; k++ {
+				if r.Bool() {
+					c.ROIComps = append(c.ROIComps, k)
+				}
+			}
+			if len(c.ROIComps) == 0 || len(c.ROIComps) == j.C {
+				c.ROIComps = []int{j.C - 1}
+			}
+		}
+		add(c)
 	}
 	// (htblocks) thousands of small HT code-blocks per image with content whose blocks start with
 	// all-zero quads (MEL stream opening with 1-bits) and carry MagSgn streams of every length:
@@ -391,6 +442,19 @@ func c16J2K(c *c16Case, res mon.Result) mon.Result {
 	if ht {
 		p.HTJ2KMode = true
 		p.BlockEncoderFactory = func(w, h int) jpeg2000.BlockEncoder { return htj2k.NewHTEncoder(w, h) }
+	}
+	switch c.ROI {
+	case 1:
+		p.ROI = &jpeg2000.ROIParams{X0: 1, Y0: 2, Width: j.W/2 + 1, Height: j.H/2 + 1, Shift: 3}
+	case 2:
+		p.ROIConfig = &jpeg2000.ROIConfig{ROIs: []jpeg2000.ROIRegion{{ID: "a", Rect: &jpeg2000.ROIParams{X0: 2, Y0: 1, Width: j.W / 2, Height: j.H / 2, Shift: 4}, Components: c.ROIComps}}}
+	case 3:
+		p.ROIConfig = &jpeg2000.ROIConfig{ROIs: []jpeg2000.ROIRegion{
+			{ID: "a", Rect: &jpeg2000.ROIParams{X0: 0, Y0: 0, Width: j.W / 3, Height: j.H / 3, Shift: 3}},
+			{ID: "b", Rect: &jpeg2000.ROIParams{X0: j.W / 2, Y0: j.H / 2, Width: j.W / 3, Height: j.H / 3, Shift: 3}}}}
+	}
+	if c.ROI > 0 {
+		res.Cell(fmt.Sprintf("roi=%d/tiled=%v/layers>1=%v", c.ROI, j.TW > 0, j.Layers > 1))
 	}
 	res.Cell(fmt.Sprintf("layers=%d/prog=%d", j.Layers, j.Prog))
 	stream, err := jpeg2000.NewEncoder(p).Encode(px)
